@@ -311,7 +311,7 @@ def run_check(pid, mod, tier, seed, replay):
             thms, aout = audit(P['namespace'], P['lean_module'])
             if thms is None:
                 broken.append('axiom audit failed: ' + aout[-800:]); thms = []
-        bins = sorted(set(s.bin for s in P['streams'] if not s.crate))
+        bins = sorted(set([s.bin for s in P['streams'] if not s.crate] + list(P.get('extra_bins', []))))
         cb_ok, cb_out = cargo_build(bins) if bins else (True, '')
         for crate in sorted(set(s.crate for s in P['streams'] if s.crate)):
             ok_c, out_c = cargo_build(sorted(set(s.bin for s in P['streams'] if s.crate == crate)), crate=os.path.join(VERIF, crate))
